@@ -61,6 +61,12 @@ Format/Xml.vos Format/Xml.vok Format/Xml.required_vos: Format/Xml.v Base/Result.
 Gen/Tables_metrics.vo Gen/Tables_metrics.glob Gen/Tables_metrics.v.beautified Gen/Tables_metrics.required_vo: Gen/Tables_metrics.v Base/AstOp.vo
 Gen/Tables_metrics.vio: Gen/Tables_metrics.v Base/AstOp.vio
 Gen/Tables_metrics.vos Gen/Tables_metrics.vok Gen/Tables_metrics.required_vos: Gen/Tables_metrics.v Base/AstOp.vos
+Gen/Tables_uvl.vo Gen/Tables_uvl.glob Gen/Tables_uvl.v.beautified Gen/Tables_uvl.required_vo: Gen/Tables_uvl.v Base/AstOp.vo
+Gen/Tables_uvl.vio: Gen/Tables_uvl.v Base/AstOp.vio
+Gen/Tables_uvl.vos Gen/Tables_uvl.vok Gen/Tables_uvl.required_vos: Gen/Tables_uvl.v Base/AstOp.vos
+Format/Uvl.vo Format/Uvl.glob Format/Uvl.v.beautified Format/Uvl.required_vo: Format/Uvl.v Base/Result.vo Base/Str.vo Base/AstOp.vo Gen/Tables_core.vo Model/Ast.vo Model/FM.vo Model/PFM.vo Model/Queries.vo Format/Json.vo Format/Glencoe.vo Format/Xml.vo Gen/Tables_uvl.vo
+Format/Uvl.vio: Format/Uvl.v Base/Result.vio Base/Str.vio Base/AstOp.vio Gen/Tables_core.vio Model/Ast.vio Model/FM.vio Model/PFM.vio Model/Queries.vio Format/Json.vio Format/Glencoe.vio Format/Xml.vio Gen/Tables_uvl.vio
+Format/Uvl.vos Format/Uvl.vok Format/Uvl.required_vos: Format/Uvl.v Base/Result.vos Base/Str.vos Base/AstOp.vos Gen/Tables_core.vos Model/Ast.vos Model/FM.vos Model/PFM.vos Model/Queries.vos Format/Json.vos Format/Glencoe.vos Format/Xml.vos Gen/Tables_uvl.vos
 Model/Metrics.vo Model/Metrics.glob Model/Metrics.v.beautified Model/Metrics.required_vo: Model/Metrics.v Base/Result.vo Base/Str.vo Base/PyFloat.vo Base/AstOp.vo Model/Ast.vo Model/FM.vo Model/Ctc.vo Model/Queries.vo Model/Ops.vo Model/EqHash.vo Gen/Tables_metrics.vo
 Model/Metrics.vio: Model/Metrics.v Base/Result.vio Base/Str.vio Base/PyFloat.vio Base/AstOp.vio Model/Ast.vio Model/FM.vio Model/Ctc.vio Model/Queries.vio Model/Ops.vio Model/EqHash.vio Gen/Tables_metrics.vio
 Model/Metrics.vos Model/Metrics.vok Model/Metrics.required_vos: Model/Metrics.v Base/Result.vos Base/Str.vos Base/PyFloat.vos Base/AstOp.vos Model/Ast.vos Model/FM.vos Model/Ctc.vos Model/Queries.vos Model/Ops.vos Model/EqHash.vos Gen/Tables_metrics.vos
@@ -124,3 +130,18 @@ Proofs/JsonFacts.vos Proofs/JsonFacts.vok Proofs/JsonFacts.required_vos: Proofs/
 Props/C05.vo Props/C05.glob Props/C05.v.beautified Props/C05.required_vo: Props/C05.v Base/Result.vo Model/FM.vo Model/PFM.vo Format/Json.vo Proofs/JsonFacts.vo
 Props/C05.vio: Props/C05.v Base/Result.vio Model/FM.vio Model/PFM.vio Format/Json.vio Proofs/JsonFacts.vio
 Props/C05.vos Props/C05.vok Props/C05.required_vos: Props/C05.v Base/Result.vos Model/FM.vos Model/PFM.vos Format/Json.vos Proofs/JsonFacts.vos
+Proofs/FideFacts.vo Proofs/FideFacts.glob Proofs/FideFacts.v.beautified Proofs/FideFacts.required_vo: Proofs/FideFacts.v Base/Result.vo Base/Str.vo Base/AstOp.vo Model/Ast.vo Model/FM.vo Model/PFM.vo Model/Queries.vo Model/Sem.vo Gen/Tables_fide.vo Format/Xml.vo Proofs/QueriesFacts.vo
+Proofs/FideFacts.vio: Proofs/FideFacts.v Base/Result.vio Base/Str.vio Base/AstOp.vio Model/Ast.vio Model/FM.vio Model/PFM.vio Model/Queries.vio Model/Sem.vio Gen/Tables_fide.vio Format/Xml.vio Proofs/QueriesFacts.vio
+Proofs/FideFacts.vos Proofs/FideFacts.vok Proofs/FideFacts.required_vos: Proofs/FideFacts.v Base/Result.vos Base/Str.vos Base/AstOp.vos Model/Ast.vos Model/FM.vos Model/PFM.vos Model/Queries.vos Model/Sem.vos Gen/Tables_fide.vos Format/Xml.vos Proofs/QueriesFacts.vos
+Proofs/FamaFacts.vo Proofs/FamaFacts.glob Proofs/FamaFacts.v.beautified Proofs/FamaFacts.required_vo: Proofs/FamaFacts.v Base/Result.vo Base/Str.vo Base/AstOp.vo Model/Ast.vo Model/FM.vo Model/PFM.vo Model/Queries.vo Gen/Tables_fide.vo Format/Xml.vo Proofs/FideFacts.vo
+Proofs/FamaFacts.vio: Proofs/FamaFacts.v Base/Result.vio Base/Str.vio Base/AstOp.vio Model/Ast.vio Model/FM.vio Model/PFM.vio Model/Queries.vio Gen/Tables_fide.vio Format/Xml.vio Proofs/FideFacts.vio
+Proofs/FamaFacts.vos Proofs/FamaFacts.vok Proofs/FamaFacts.required_vos: Proofs/FamaFacts.v Base/Result.vos Base/Str.vos Base/AstOp.vos Model/Ast.vos Model/FM.vos Model/PFM.vos Model/Queries.vos Gen/Tables_fide.vos Format/Xml.vos Proofs/FideFacts.vos
+Props/C07.vo Props/C07.glob Props/C07.v.beautified Props/C07.required_vo: Props/C07.v Base/Result.vo Base/AstOp.vo Model/Ast.vo Model/FM.vo Model/PFM.vo Model/Sem.vo Format/Xml.vo Proofs/FideFacts.vo
+Props/C07.vio: Props/C07.v Base/Result.vio Base/AstOp.vio Model/Ast.vio Model/FM.vio Model/PFM.vio Model/Sem.vio Format/Xml.vio Proofs/FideFacts.vio
+Props/C07.vos Props/C07.vok Props/C07.required_vos: Props/C07.v Base/Result.vos Base/AstOp.vos Model/Ast.vos Model/FM.vos Model/PFM.vos Model/Sem.vos Format/Xml.vos Proofs/FideFacts.vos
+Proofs/GlencoeFacts.vo Proofs/GlencoeFacts.glob Proofs/GlencoeFacts.v.beautified Proofs/GlencoeFacts.required_vo: Proofs/GlencoeFacts.v Base/Result.vo Base/Str.vo Base/AstOp.vo Gen/Tables_core.vo Model/Ast.vo Model/FM.vo Model/Ctc.vo Model/Queries.vo Model/Sem.vo Model/EqHash.vo Model/PFM.vo Format/Json.vo Gen/Tables_glencoe.vo Format/Glencoe.vo Proofs/FMFacts.vo Proofs/QueriesFacts.vo Proofs/C20Facts.vo
+Proofs/GlencoeFacts.vio: Proofs/GlencoeFacts.v Base/Result.vio Base/Str.vio Base/AstOp.vio Gen/Tables_core.vio Model/Ast.vio Model/FM.vio Model/Ctc.vio Model/Queries.vio Model/Sem.vio Model/EqHash.vio Model/PFM.vio Format/Json.vio Gen/Tables_glencoe.vio Format/Glencoe.vio Proofs/FMFacts.vio Proofs/QueriesFacts.vio Proofs/C20Facts.vio
+Proofs/GlencoeFacts.vos Proofs/GlencoeFacts.vok Proofs/GlencoeFacts.required_vos: Proofs/GlencoeFacts.v Base/Result.vos Base/Str.vos Base/AstOp.vos Gen/Tables_core.vos Model/Ast.vos Model/FM.vos Model/Ctc.vos Model/Queries.vos Model/Sem.vos Model/EqHash.vos Model/PFM.vos Format/Json.vos Gen/Tables_glencoe.vos Format/Glencoe.vos Proofs/FMFacts.vos Proofs/QueriesFacts.vos Proofs/C20Facts.vos
+Props/C08.vo Props/C08.glob Props/C08.v.beautified Props/C08.required_vo: Props/C08.v Base/Result.vo Model/Ast.vo Model/FM.vo Model/PFM.vo Model/Sem.vo Format/Glencoe.vo Proofs/GlencoeFacts.vo
+Props/C08.vio: Props/C08.v Base/Result.vio Model/Ast.vio Model/FM.vio Model/PFM.vio Model/Sem.vio Format/Glencoe.vio Proofs/GlencoeFacts.vio
+Props/C08.vos Props/C08.vok Props/C08.required_vos: Props/C08.v Base/Result.vos Model/Ast.vos Model/FM.vos Model/PFM.vos Model/Sem.vos Format/Glencoe.vos Proofs/GlencoeFacts.vos
